@@ -60,6 +60,10 @@ type scen struct {
 }
 
 var scens = []scen{
+	{"cdb: query x query", dnsfix.CDB, false, false, [][]string{{"q"}, {"q2"}}, [2]int{1, 2}},
+	{"cdb: query x same query (cache on)", dnsfix.CDB, true, false, [][]string{{"q"}, {"q"}}, [2]int{1, 2}},
+	{"rdb-v2: query x query", dnsfix.RDBv2, false, false, [][]string{{"q"}, {"q2"}}, [2]int{1, 2}},
+	{"cdb: unusual queries x unusual queries (real metrics)", dnsfix.CDB, true, true, [][]string{{"qx"}, {"qy"}}, [2]int{1, 2}},
 	{"cdb: query x full reload", dnsfix.CDB, true, false, [][]string{{"q"}, {"reload-full"}}, [2]int{2, 3}},
 	{"cdb: 2 queries x full reload x shutdown", dnsfix.CDB, false, false, [][]string{{"q", "q2"}, {"reload-full"}, {"shutdown"}}, [2]int{1, 2}},
 	{"cdb: query x stats export (real metrics)", dnsfix.CDB, false, true, [][]string{{"q"}, {"stats"}}, [2]int{1, 2}},
@@ -69,8 +73,15 @@ var scens = []scen{
 	{"rdb-v2: stats export x partial reload (real metrics)", dnsfix.RDBv2, false, true, [][]string{{"stats"}, {"reload-partial"}}, [2]int{1, 2}},
 }
 
+// package-level state of the code under test survives an execution (e.g. a memo table keyed by query type):
+// "unusual" queries use types no earlier execution of this process has asked for
+var buildN int
+
 func build(sc scen) (func(), func(*vsched.Result) []string) {
+	buildN++
+	freshType := uint16(60000 + 2*(buildN%2500))
 	var notes []string
+	var reg *srvfix.Registry
 	body := func() {
 		st := metrics.NewStats()
 		var hs stats.Stats = &stats.DummyStats{}
@@ -85,7 +96,7 @@ func build(sc scen) (func(), func(*vsched.Result) []string) {
 		}
 		// real backend, opened by the repository's own driver, behind a tracking wrapper so that
 		// executions cut short by pruning do not leak mappings / RocksDB handles
-		reg := &srvfix.Registry{}
+		reg = &srvfix.Registry{}
 		vsched.AtEnd(reg.CloseAll)
 		var inner db.DBI
 		if sc.backend == dnsfix.CDB {
@@ -110,9 +121,12 @@ func build(sc scen) (func(), func(*vsched.Result) []string) {
 		st.AddSample("DNS.responsetime_us", 1)
 		vsched.SetGoDaemon(false)
 		closed := false
-		query := func(name, ip string) {
+		query := func(name, ip string, qt ...uint16) {
 			m := new(dns.Msg)
 			m.SetQuestion(name, dns.TypeA)
+			if len(qt) > 0 {
+				m.Question[0].Qtype = qt[0]
+			}
 			w := dnsfix.NewWriter(ip, false)
 			h.ServeDNS(dnsserver.WithMaxAnswer(context.Background(), 8), w, m)
 		}
@@ -126,6 +140,12 @@ func build(sc scen) (func(), func(*vsched.Result) []string) {
 						query("www.example.com.", "10.1.1.1")
 					case "q2":
 						query("x.w.example.com.", "8.8.8.8")
+					case "qx": // a type without a mnemonic, a name that does not exist, a name below the delegation
+						query("www.example.com.", "10.1.1.1", freshType)
+						query("nx.example.com.", "10.1.1.1")
+					case "qy":
+						query("www.example.com.", "8.8.8.8", freshType+1)
+						query("a.deleg.example.com.", "8.8.8.8")
 					case "reload-full":
 						if err := h.Reload(*dnsserver.NewFullReloadSignal(p[1])); err != nil && !strings.Contains(err.Error(), "closed") && !errors.Is(err, db.ErrReloadTimeout) {
 							notes = append(notes, "reload-full failed: "+err.Error())
@@ -153,6 +173,9 @@ func build(sc scen) (func(), func(*vsched.Result) []string) {
 	}
 	check := func(res *vsched.Result) []string {
 		bad := append([]string{}, notes...)
+		if reg != nil {
+			bad = append(bad, reg.Faults...) // would be a crash of the process on the real backend
+		}
 		for _, p := range res.Problems() {
 			// normalise thread names out of race reports: one fingerprint per racing field and access pair
 			bad = append(bad, p)
@@ -230,6 +253,9 @@ func main() {
 			r.Add("schedule_distinct_outcomes", int64(len(outcomes)))
 			if st.Capped || st.BoundCompleted < bound {
 				r.Exhaustive = false
+			}
+			if os.Getenv("C14_DEBUG") != "" {
+				fmt.Fprintf(os.Stderr, "c14 debug: scenario %q outcomes %q\n", sc.name, outcomes)
 			}
 			r.Note("scenario %q: preemption bound %d, executions %d, distinct states %d, steps %d", sc.name, bound, st.Execs, st.States, st.Transitions)
 			r.Sample(map[string]interface{}{"scenario": sc.name, "threads": sc.threads, "bound": bound, "executions": st.Execs})
